@@ -4,12 +4,16 @@
 //!   wr  level ending table op op ...   run a script of write / write_all / flush calls on a real
 //!        `bgzf::io::Writer` over a shared sink, end it (finish | tryfinish | drop | tfdrop), read the
 //!        sink back with `bgzf::io::Reader::read_to_end`.
-//!        op     = w<hex> (one `write` call) | a<hex> (`write_all`) | f (`flush`)
+//!        op     = w<hex> (one `write` call) | a<hex> (`write_all`) | f (`flush`) | t (`try_finish`)
 //!        table  = lvl:block:cdata,...  the DEFLATE oracle handed to the model (what zlib-rs produced
 //!                 for each block; the model must rebuild the whole file around it)
 //!        obs    = <r1>,<r2>,...|<end>|<position>|<sink hex>|<read_to_end>
 //!   rd  table stream                   `bgzf::io::Reader::read_to_end` on an arbitrary (mostly
 //!        damaged) stream: obs = Ok:<hex> | Err:<kind>:<hex read so far>
+//!
+//!   rdbig table stream                 the same stream pulled with `read` calls on >= 64 KiB buffers
+//!        (the direct path read_block_into_buf), which must end with Ok(0) also when the stream
+//!        has no trailing EOF marker; obs as for rd
 //!
 //! The verdict column (L3) is independent of the model: the sink is parsed by the from-scratch
 //! gzip walker of shared/c01_gz.rs (own inflater, own CRC-32), compared with the accepted bytes,
@@ -34,6 +38,7 @@ enum Op {
     Write(Vec<u8>),
     WriteAll(Vec<u8>),
     Flush,
+    TryFinish,
 }
 
 fn op_str(op: &Op) -> String {
@@ -41,6 +46,7 @@ fn op_str(op: &Op) -> String {
         Op::Write(b) => format!("w{}", hex(b)),
         Op::WriteAll(b) => format!("a{}", hex(b)),
         Op::Flush => "f".into(),
+        Op::TryFinish => "t".into(),
     }
 }
 
@@ -49,6 +55,7 @@ fn parse_op(s: &str) -> Op {
         b'w' => Op::Write(unhex(&s[1..])),
         b'a' => Op::WriteAll(unhex(&s[1..])),
         b'f' => Op::Flush,
+        b't' => Op::TryFinish,
         _ => panic!("bad op {s}"),
     }
 }
@@ -95,6 +102,7 @@ fn exec(level: u8, ending: &str, ops: &[Op]) -> Exec {
             Op::Write(b) => wr.write(b).map(Some),
             Op::WriteAll(b) => wr.write_all(b).map(|_| None),
             Op::Flush => wr.flush().map(|_| None),
+            Op::TryFinish => wr.try_finish().map(|_| None),
         }));
         match r {
             Outcome::Panicked(m) => {
@@ -421,6 +429,12 @@ fn split_ops(rng: &mut Rng, p: &[u8], style: u64, bytewise_max: usize) -> Vec<Op
                 if rng.chance(1, 6) {
                     ops.push(Op::Flush);
                 }
+                if rng.chance(1, 10) {
+                    ops.push(Op::TryFinish);
+                    if rng.chance(1, 3) {
+                        ops.push(rng.pick(&[Op::TryFinish, Op::Flush]).clone());
+                    }
+                }
             }
         }
         3 => {
@@ -448,6 +462,31 @@ fn split_ops(rng: &mut Rng, p: &[u8], style: u64, bytewise_max: usize) -> Vec<Op
             ops.push(Op::WriteAll(take(&mut off, usize::MAX)));
             if rng.chance(1, 2) {
                 ops.push(Op::Flush);
+            }
+        }
+        6 => {
+            // finished and re-opened: data, try_finish, data ... (each segment gets its own marker)
+            let nseg = rng.range(2, 4) as usize;
+            if rng.chance(1, 4) {
+                ops.push(Op::TryFinish);
+            }
+            for i in 0..nseg {
+                let n = if i + 1 == nseg { usize::MAX } else { rng.range(0, (p.len() as u64 * 2 / nseg as u64).max(1)) as usize };
+                let b = take(&mut off, n);
+                if rng.chance(1, 2) {
+                    ops.push(Op::WriteAll(b));
+                } else {
+                    ops.push(Op::Write(b));
+                }
+                if rng.chance(1, 4) {
+                    ops.push(Op::Flush);
+                }
+                if i + 1 < nseg || rng.chance(1, 3) {
+                    ops.push(Op::TryFinish);
+                    if rng.chance(1, 4) {
+                        ops.push(Op::TryFinish);
+                    }
+                }
             }
         }
         _ => {
@@ -570,6 +609,40 @@ fn gen_rd(rng: &mut Rng, w: &mut CaseWriter, n_random: usize) {
     }
 }
 
+/// streams built without noodles, with and without a trailing EOF marker, for large-buffer reads
+fn gen_rdbig(rng: &mut Rng, w: &mut CaseWriter, n: usize) {
+    for i in 0..n {
+        let nblocks = rng.range(0, 3) as usize;
+        let mut s = Vec::new();
+        let mut table: Table = vec![(0, vec![], vec![3, 0])];
+        for _ in 0..nblocks {
+            let len = *rng.pick(&[1usize, 100, 4000, 65495, 65535, 65536]);
+            let class = if len > 5000 { *rng.pick(&[0u64, 1]) } else { rng.below(3) };
+            let b = payload(rng, class, len);
+            let l = *rng.pick(&[0u8, 1, 6, 9]);
+            let cd = flate2_deflate(l, &b);
+            if cd.len() > MAX_CDATA {
+                continue;
+            }
+            s.extend(make_frame(&cd, &b));
+            table.push((l, b, cd));
+            if rng.chance(1, 5) {
+                s.extend(gz::EOF_BLOCK);
+            }
+        }
+        // i % 3: 0 = no marker at the end, 1 = marker, 2 = marker-less plus a few stray bytes
+        match i % 3 {
+            1 => s.extend(gz::EOF_BLOCK),
+            2 => {
+                let k = rng.range(1, 17) as usize;
+                s.extend(rng.bytes(k));
+            }
+            _ => {}
+        }
+        w.push("rdbig", vec![table_str(&table), hex(&s)]);
+    }
+}
+
 fn generate(rng: &mut Rng, tier: &str, w: &mut CaseWriter) {
     let thorough = tier == "thorough";
     let mul = if thorough { 8 } else { 1 };
@@ -579,6 +652,12 @@ fn generate(rng: &mut Rng, tier: &str, w: &mut CaseWriter) {
         push_wr(w, 0, e, &[Op::Flush]);
         push_wr(w, 9, e, &[Op::Write(vec![]), Op::Flush, Op::Write(vec![])]);
         push_wr(w, 1, e, &[Op::Write(vec![b'x'])]);
+        // try_finish in the middle of a history (fix be585e3: one marker per finished segment)
+        push_wr(w, 6, e, &[Op::TryFinish]);
+        push_wr(w, 6, e, &[Op::TryFinish, Op::TryFinish, Op::Flush]);
+        push_wr(w, 6, e, &[Op::WriteAll(b"noodles".to_vec()), Op::TryFinish, Op::WriteAll(b"-bgzf".to_vec())]);
+        push_wr(w, 3, e, &[Op::TryFinish, Op::Write(b"after".to_vec()), Op::TryFinish, Op::TryFinish, Op::Flush]);
+        push_wr(w, 6, e, &[Op::WriteAll(b"noodles".to_vec()), Op::Flush, Op::TryFinish, Op::Flush, Op::TryFinish]);
         push_wr(w, 6, e, &[Op::WriteAll(b"noodles".to_vec()), Op::Flush, Op::WriteAll(b"-".to_vec()), Op::Flush, Op::WriteAll(b"bgzf".to_vec())]);
     }
     // incompressible block of exactly the staging size at every level (fallback to level 0 for l >= 1)
@@ -605,7 +684,7 @@ fn generate(rng: &mut Rng, tier: &str, w: &mut CaseWriter) {
             _ => rng.range(2000, 9000) as usize,
         };
         let p = payload(rng, class, len);
-        let style = rng.below(6);
+        let style = rng.below(7);
         let ops = split_ops(rng, &p, style, 64);
         push_wr(w, level, *rng.pick(ENDINGS), &ops);
     }
@@ -619,7 +698,7 @@ fn generate(rng: &mut Rng, tier: &str, w: &mut CaseWriter) {
             let level = rng.below(10) as u8;
             let class = *rng.pick(&[0u64, 1, 2, 2, 3, 3, 4]);
             let p = payload(rng, class, len);
-            let style = rng.below(6);
+            let style = rng.below(7);
             let ops = split_ops(rng, &p, style, if thorough { 400 } else { 120 });
             push_wr(w, level, *rng.pick(ENDINGS), &ops);
         }
@@ -633,6 +712,7 @@ fn generate(rng: &mut Rng, tier: &str, w: &mut CaseWriter) {
     }
     // --- reader on damaged streams
     gen_rd(rng, w, 60 * mul as usize);
+    gen_rdbig(rng, w, 30 * mul as usize);
 }
 
 // -------------------------------------------------------------------------------------------
@@ -663,11 +743,21 @@ fn run_wr(c: &Case) -> Obs {
         }
         // well-formedness under an independent gzip implementation
         let members = gz::walk(&x.sink).map_err(|(t, d)| (t, format!("{d}; {}", class())))?;
-        let n_eof = if ending == "tfdrop" { 2 } else { 1 };
         if !x.sink.ends_with(&gz::EOF_BLOCK) {
             return Err(("eof-missing".into(), format!("sink does not end with the 28-byte EOF marker; {}", class())));
         }
-        let data_members = &members[..members.len() - n_eof.min(members.len())];
+        // exactly one marker at the end, and never two in a row (try_finish on a finished stream,
+        // or Drop after try_finish, must not add another one)
+        let is_eof: Vec<bool> = members.iter().map(|m| x.sink[m.offset..m.offset + m.size] == gz::EOF_BLOCK).collect();
+        if let Some(i) = is_eof.windows(2).position(|w| w[0] && w[1]) {
+            return Err(("eof-duplicate".into(), format!("two consecutive EOF markers at member {i}; {}", class())));
+        }
+        let n_markers = is_eof.iter().filter(|b| **b).count();
+        let n_tf = ops.iter().filter(|o| matches!(o, Op::TryFinish)).count();
+        if n_markers > n_tf + 1 {
+            return Err(("eof-duplicate".into(), format!("{n_markers} EOF markers for {n_tf} try_finish calls + the ending; {}", class())));
+        }
+        let n_data = members.iter().filter(|m| !m.data.is_empty()).count();
         let inflated: Vec<u8> = members.iter().flat_map(|m| m.data.iter().copied()).collect();
         if inflated != x.accepted {
             let at = inflated.iter().zip(&x.accepted).position(|(a, b)| a != b).unwrap_or(inflated.len().min(x.accepted.len()));
@@ -710,7 +800,7 @@ fn run_wr(c: &Case) -> Obs {
                 return Err(("oracle-hyp-l0".into(), format!("level-0 deflate of {} bytes is {} bytes", b.len(), cd.len())));
             }
         }
-        Ok(data_members.len())
+        Ok(n_data)
     })();
     match verdict {
         Ok(n_data) => Obs::ok(obs, n_data >= 1 && ops.len() >= 2),
@@ -726,10 +816,38 @@ fn run_rd(c: &Case) -> Obs {
     Obs::ok(obs, false)
 }
 
+fn run_rdbig(c: &Case) -> Obs {
+    let s = c.b(1);
+    let max_calls = s.len() / 26 + 8;
+    let r = guarded(AssertUnwindSafe(|| -> (String, bool) {
+        let mut rd = bgzf::io::Reader::new(&s[..]);
+        let mut out = Vec::new();
+        let mut buf = vec![0x5au8; 65536 + (s.len() % 3) * 1000];
+        for _ in 0..max_calls {
+            match rd.read(&mut buf) {
+                Ok(0) => return (format!("Ok:{}", hex(&out)), true),
+                Ok(k) => out.extend_from_slice(&buf[..k.min(buf.len())]),
+                Err(e) => return (format!("Err:{}:{}", errkind(&e), hex(&out)), true),
+            }
+        }
+        (format!("NoEof:{}", hex(&out[..out.len().min(64)])), false)
+    }));
+    match r {
+        Outcome::Done((obs, true)) => Obs::ok(obs, false),
+        Outcome::Done((obs, false)) => Obs::fail(
+            obs,
+            "large-read-never-returns-0",
+            format!("read() with a >= 64 KiB buffer did not return 0 within {max_calls} calls on a {}-byte stream", s.len()),
+        ),
+        Outcome::Panicked(m) => Obs::fail("Panic", "large-read-panic", m),
+    }
+}
+
 fn run(c: &Case) -> Obs {
     match c.kind.as_str() {
         "wr" => run_wr(c),
         "rd" => run_rd(c),
+        "rdbig" => run_rdbig(c),
         _ => Obs {
             obs: "-".into(),
             verdict: "skip".into(),
